@@ -17,7 +17,9 @@ pub struct Case {
     pub text: TextCase,
     pub radius: usize,
     pub header: Option<(String, String)>,
-    /// call `header()` with provisional names first (the last call counts)
+    /// multi-step use of one formatter: provisional settings (radius, hint,
+    /// header names) are set AND rendered with first, then every setter is
+    /// called again; the last call counts
     #[serde(default)]
     pub header_twice: bool,
     pub hint: bool,
@@ -31,6 +33,9 @@ pub struct Rendered {
     /// per hunk: (to_writer bytes, Display)
     pub hunks: Vec<(Vec<u8>, String)>,
     pub quick: Option<String>,
+    /// Display through a width/fill/alignment spec no wider than the output
+    /// differed from plain Display: (spec, got)
+    pub spec_mismatch: Option<(&'static str, String)>,
 }
 
 fn render_with<'a, T: DiffableStr + ?Sized>(
@@ -43,11 +48,18 @@ fn render_with<'a, T: DiffableStr + ?Sized>(
         // last call must win
         ud.context_radius(case.radius.wrapping_add(7) % 11)
             .missing_newline_hint(!case.hint);
+        // ... and the formatter is used with them before it is reconfigured:
+        // a later rendering must reflect the settings in force at that time
+        let _ = ud.iter_hunks().count();
+        let _ = ud.to_string();
+        let mut sink = Vec::new();
+        ud.to_writer(&mut sink)?;
     }
     ud.context_radius(case.radius);
     if let Some((a, b)) = &case.header {
         if case.header_twice {
             ud.header("provisional-a", "provisional-b");
+            let _ = ud.to_string();
         }
         ud.header(a, b);
     }
@@ -55,17 +67,39 @@ fn render_with<'a, T: DiffableStr + ?Sized>(
     let mut r = Vec::new();
     ud.to_writer(&mut r)?;
     let display = ud.to_string();
+    // a width no larger than the output (with any fill / alignment) asks for
+    // no padding at all, whether the impl pads the document, its lines or
+    // nothing
+    let mut spec_mismatch = None;
+    if display.chars().count() >= 3 {
+        for (spec, got) in [
+            ("{:2}", format!("{:2}", ud)),
+            ("{:>3}", format!("{:>3}", ud)),
+            ("{:_<2}", format!("{:_<2}", ud)),
+            ("{:^3}", format!("{:^3}", ud)),
+        ] {
+            if got != display && spec_mismatch.is_none() {
+                spec_mismatch = Some((spec, got));
+            }
+        }
+    }
     let mut hunks = Vec::new();
     for h in ud.iter_hunks() {
         let mut hb = Vec::new();
         h.to_writer(&mut hb)?;
-        hunks.push((hb, h.to_string()));
+        let hs = h.to_string();
+        let got = format!("{:_>3}", h);
+        if got != hs && spec_mismatch.is_none() {
+            spec_mismatch = Some(("{:_>3} (hunk)", got));
+        }
+        hunks.push((hb, hs));
     }
     Ok(Rendered {
         r,
         display,
         hunks,
         quick: None,
+        spec_mismatch,
     })
 }
 
@@ -92,6 +126,7 @@ fn write_with<'a, T: DiffableStr + ?Sized>(
         // last call must win
         ud.context_radius(case.radius.wrapping_add(7) % 11)
             .missing_newline_hint(!case.hint);
+        let _ = ud.iter_hunks().count();
     }
     ud.context_radius(case.radius);
     if let Some((a, b)) = &case.header {
@@ -209,6 +244,15 @@ impl C05 {
                     "Display gives {:?}, lossy decoding of to_writer gives {:?}",
                     rendered.display,
                     String::from_utf8_lossy(&rendered.r)
+                ),
+            );
+        }
+        if let Some((spec, got)) = &rendered.spec_mismatch {
+            return fail(
+                "c05.display_format_spec",
+                format!(
+                    "Display through {} (a width no larger than the output) gives {:?}, plain Display gives {:?}",
+                    spec, got, rendered.display
                 ),
             );
         }
